@@ -255,6 +255,13 @@ func runC06(c *mon.Ctx) {
 						content.Set("join_authorised_via_users_server", ref.S("@admin:"+sAuth))
 					}
 					content.Set("displayname", ref.S("x"))
+					if caseNo%3 == 1 {
+						// members whose names only look like membership / join_authorised_via_users_server (U+017F for 's'; they
+						// sort after the real ones, so a reader that folds names would go by them): they name nobody and change
+						// no membership (tenth seeding round, C06-T: Membership() read through encoding/json's folding again)
+						content.Set("member\u017fhip", ref.S("leave"))
+						content.Set("join_authori\u017fed_via_users_server", ref.S("@admin:unrelated.example"))
+					}
 				case "m.room.message":
 					content.Set("body", ref.S("hello"))
 				case "m.room.create":
